@@ -195,9 +195,11 @@ def verus_files(S: Sources):
     subs = [
         (r"self\s*\.\s*picos", "this.picos", 1),
         (r"let\s+mut\s+str\s*:\s*String\s*=\s*match", "let str: Repr = match", 1),
-        (r"\(\s*picos\s*/\s*picos::DAY\s*\)\s*\.\s*to_string\(\)", "Repr::Int(picos / picos::DAY)", 1),
-        (r"let\s+val\s*=\s*\(\s*(\(\s*\(\s*picos\s*\*\s*multiple\s*\)\s*/\s*scale\.picos\(\)\s*\))\s*as\s+f64\s*\)\s*/\s*multiple\s+as\s+f64\s*;",
-         r"proof { lemma_fmt_no_overflow(picos as int, multiple as int, sig_figs as int, scale); }\n let val_num: u128 = \1;", 1),
+        # `(<integer expression>).to_string()` -> the integer itself
+        (r"\(([^()]*(?:\([^()]*\)[^()]*)*)\)\s*\.\s*to_string\(\)", r"Repr::Int(\1)", 1),
+        # `let val = ((<integer expression>) as f64) / multiple as f64;` -> the integer expression itself
+        (r"let\s+val\s*=\s*\(\s*(\((?:[^()]|\((?:[^()]|\([^()]*\))*\))*\))\s*as\s+f64\s*\)\s*/\s*multiple\s+as\s+f64\s*;",
+         r"proof { if picos < 86_400_000_000_000_000 * (multiple as int) { lemma_fmt_no_overflow(picos as int, multiple as int, sig_figs as int, scale); } }\n let val_num: u128 = \1;", 1),
         (r"util::fmt::format_f64\(\s*val\s*,\s*sig_figs\s*\)", "Repr::Scaled(val_num, multiple)", 1),
     ]
     dropped = []
